@@ -3094,6 +3094,18 @@ impl<'tcx> Cx<'tcx> {
             finish(self, st, r)?;
             return Ok(None);
         }
+        // `(&slice).into_iter()` for a slice of unknown length is `slice.iter()` (core's cross-crate MIR has `iter` and `Iter::new`
+        // already inlined into it, pointer arithmetic included): the same opaque iterator either way
+        if name == "core::iter::traits::collect::IntoIterator::into_iter" && argv.len() == 1 {
+            if let (Some(ty::Ref(_, inner, m)), Some(V::Ref(p))) = (argtys.first().map(|t| t.kind()), argv.first()) {
+                if let (ty::Slice(elem), None, true) = (inner.kind(), p.win, m.is_not()) {
+                    if let Some(did) = tcx.get_diagnostic_item(rustc_span::Symbol::intern("slice_iter")) {
+                        let cargs2 = tcx.mk_args(&[(*elem).into()]);
+                        return self.call(st, base, did, cargs2, argv, argtys, dest, dty, target, sp);
+                    }
+                }
+            }
+        }
         // partial_cmp on the abstract scalar: a four-way fork, so that guards stay comparison terms
         if name == "core::cmp::PartialOrd::partial_cmp" && cargs.len() > 0 && cargs[0].as_type().map(|t| self.scalar_like(t)).unwrap_or(false) {
             let (a, b) = (self.sc(st, &argv[0])?, self.sc(st, &argv[1])?);
